@@ -161,6 +161,9 @@ def _worker(args):
     # in a call that does not return (a non-terminating loop in the code under test or in the harness). Dump where,
     # and die: the parent reports a harness fault (exit 2) instead of hanging for ever.
     faulthandler.dump_traceback_later(max(1.0, _DEADLINE - time.time()) + GRACE_S, exit=True)
+    from . import envs
+
+    envs.CTX = ctx  # E1-M (mc/envs.py): environment cases of this shard are counted and reported through its context
     try:
         _PROP.run_shard(shard, ctx)
     except HarnessFault as e:
@@ -367,6 +370,14 @@ def main(prop, argv=None):
         return 2
 
 
+def _with_env_bounds(b):
+    from . import envs
+
+    if envs.STRIDE:
+        b = dict(b, environment_slice="E1-M: every %d-th executed probe case of each shard, in enumeration order, repeated under each of %d environments %r and compared with its plain parse" % (envs.STRIDE, len(envs.NAMES), list(envs.NAMES)))
+    return b
+
+
 def _import_failure(prop, args, t0, exc_text):
     v = dict(
         key="package-import",
@@ -412,7 +423,12 @@ def _main(prop, args, t0):
         except ImportError:
             print("VIOLATION property=%s replay=%s" % (prop.ID, args.replay))
             return 1
-        vs = prop.replay(art["case"])
+        if isinstance(art["case"], dict) and "env" in art["case"] and art["case"].get("probe_src"):
+            from . import envs
+
+            vs = envs.replay_case(art["case"])  # E1-M case: self-contained (probe source, entry mode, earlier parse)
+        else:
+            vs = prop.replay(art["case"])
         if vs:
             for v in vs[:3]:
                 print("replay: %s: %s" % (v["key"], v["msg"]))
@@ -453,7 +469,7 @@ def _main(prop, args, t0):
         transitions=int(m["edges"]),
         traces_validated_against_impl=int(m["executions"]),
         exhaustive=(not capped) and bool(plan.get("exhaustive", True)),
-        bounds=plan.get("bounds", {}),
+        bounds=_with_env_bounds(plan.get("bounds", {})),
         outcomes={k: v for k, v in sorted(m["hist"].items())},
         shards=m["shards"],
         engine=getattr(prop, "ENGINE", ""),
